@@ -29,6 +29,13 @@ func reclaimHistories(ctx context.Context, r *vkit.Run, base *vkit.Rand) {
 	for i, spec := range []string{"fs", "sql"} {
 		idleGraceScenario(ctx, r, i, spec)
 	}
+	popSpecs, popN := []string{"fs"}, 700
+	if r.Thorough() {
+		popSpecs, popN = []string{"fs", "sql"}, 1300
+	}
+	for i, spec := range popSpecs {
+		largePopulationScenario(ctx, r, i, spec, popN)
+	}
 	for _, stack := range stacks {
 		for hi := 0; hi < nh; hi++ {
 			label := fmt.Sprintf("%s-%d", strings.NewReplacer(">", "_").Replace(stack), hi)
@@ -140,6 +147,91 @@ func idleGraceScenario(ctx context.Context, r *vkit.Run, idx int, spec string) {
 	r.Eval(fmt.Sprintf("idle-grace|%s|young-at-first-pass=%v", spec, stillThere))
 	for _, p := range probs {
 		r.Violation("after-idle-grace-window:"+problemSig(p), fmt.Sprintf("stack %s: orphan part %s was inside the grace window at the first GC pass; after an idle period longer than the window and two more passes: %s", spec, orphan.String(), p), map[string]any{"stack": spec, "scenario": "idle-grace", "problem": p})
+	}
+}
+
+// largePopulationScenario: reclamation must not depend on how many LIVE parts a
+// store holds. n referenced single-part objects are written (several hundred to
+// more than a thousand: beyond any plausible batch, page or per-run limit of a
+// collector), with three orphan parts planted straight into the leaf store
+// before, in the middle of and after them (oldest, middle, youngest by age).
+// After the grace window and quiescence the usual reclamation check (2 passes)
+// must find the stores holding exactly the referenced set.
+func largePopulationScenario(ctx context.Context, r *vkit.Run, idx int, spec string, n int) {
+	dir := r.SubDir(fmt.Sprintf("c09-pop-%d", idx))
+	env, err := vkit.OpenEnv(dir)
+	if err != nil {
+		r.Inconclusive(err.Error())
+		return
+	}
+	defer env.Close()
+	var leaves []partstore.PartStore
+	env.WrapLeaf = func(kind string, ps partstore.PartStore) partstore.PartStore {
+		leaves = append(leaves, ps)
+		return ps
+	}
+	s, err := env.NewStorage(spec, metadatapart.WithGCGraceWindow(150*time.Millisecond), metadatapart.WithGCInterval(time.Hour))
+	if err != nil {
+		r.Inconclusive(err.Error())
+		return
+	}
+	defer s.Stop(ctx)
+	se := &stackEnv{dir: dir, spec: spec, env: env, s: s}
+	if res := vmodel.Exec(ctx, s, &vmodel.Op{Kind: vmodel.OpCreateBucket, Bucket: "pop"}); res.Kind != "" {
+		r.Inconclusive("population scenario setup: " + res.ErrText)
+		return
+	}
+	if len(leaves) == 0 {
+		r.Inconclusive("population scenario: no leaf store")
+		return
+	}
+	plant := func(tag string) bool {
+		orphan, err := partstore.NewRandomPartId()
+		if err != nil {
+			r.Inconclusive("population scenario: " + err.Error())
+			return false
+		}
+		body := []byte("orphan bytes " + tag)
+		if partstore.CapabilitiesOf(leaves[0]).Has(partstore.CapabilityTxFreePutPart) {
+			err = leaves[0].PutPart(ctx, nil, *orphan, bytes.NewReader(body))
+		} else {
+			err = database.WithTx(ctx, env.DB, &sql.TxOptions{}, func(ctx context.Context, tx database.Tx) error {
+				return leaves[0].PutPart(ctx, tx, *orphan, bytes.NewReader(body))
+			})
+		}
+		if err != nil {
+			r.Inconclusive("population scenario: cannot plant orphan: " + err.Error())
+			return false
+		}
+		r.Count("population_orphans_planted", 1)
+		return true
+	}
+	if !plant("oldest") {
+		return
+	}
+	for i := 0; i < n; i++ {
+		if i == n/2 && !plant("middle") {
+			return
+		}
+		op := &vmodel.Op{Kind: vmodel.OpPut, Bucket: "pop", Key: fmt.Sprintf("k/%05d", i), Body: []byte(fmt.Sprintf("live object %05d of the population scenario", i))}
+		if res := vmodel.Exec(ctx, s, op); res.Kind != "" {
+			r.Inconclusive("population scenario put: " + res.ErrText)
+			return
+		}
+	}
+	r.Count("population_live_objects", int64(n))
+	time.Sleep(20 * time.Millisecond) // the youngest orphan is strictly younger than every live part
+	if !plant("youngest") {
+		return
+	}
+	time.Sleep(220 * time.Millisecond) // grace window elapses for everything
+	probs, stats := reclaimCheck(ctx, se)
+	r.Eval(fmt.Sprintf("population|%s|live=%d", spec, n))
+	for k, v := range stats {
+		r.Count("seen:"+k, int64(v))
+	}
+	for _, p := range probs {
+		r.Violation("after-large-population:"+problemSig(p), fmt.Sprintf("stack %s with %d live single-part objects and 3 orphan parts (older than / amid / younger than the live parts), grace window elapsed, quiescence + 2 GC passes: %s", spec, n, p), map[string]any{"stack": spec, "scenario": "large-population", "live": n, "problem": p})
 	}
 }
 
